@@ -501,4 +501,390 @@ theorem vback_spec (s : VSt) (recs : List (List Byte)) (n : Nat) (h : WF s recs)
       · dsimp only; omega
       · unfold need; rw [if_neg hB]; omega
 
+theorem vpush_eq (s : VSt) :
+    vpush s = { s with back := s.back + (calc_real_size (read64 s.mem (s.back % s.cap))).toNat } := by
+  unfold vpush; rfl
+
+/-- `push_back( data, size )`: succeeds iff the record (plus the unusable tail, if it has to wrap) fits
+    into the free space; on success the record is appended to the contents, on failure the contents are
+    unchanged. -/
+theorem vpushData_spec (s : VSt) (recs : List (List Byte)) (data : List Byte) (h : WF s recs)
+    (hn : data.length < 2 ^ 63) (s' : VSt) (ok : Bool) (hv : vpushData s data = (s', ok)) :
+    s'.front = s.front ∧ s'.cap = s.cap ∧
+    (ok = true → WF s' (recs ++ [data]) ∧ need s data.length ≤ s.cap - (s.back - s.front)) ∧
+    (ok = false → WF s' recs ∧ s'.back = s.back ∧ s.cap - (s.back - s.front) < need s data.length) := by
+  unfold vpushData at hv
+  cases hvb : vback s (BitVec.ofNat 64 data.length) with
+  | mk s1 r =>
+    have hspec := vback_spec s recs data.length h hn s1 r hvb
+    rw [hvb] at hv
+    cases r with
+    | none =>
+      simp only [Prod.mk.injEq] at hv
+      obtain ⟨rfl, rfl⟩ := hv
+      obtain ⟨hf, hc, hwf, hb, hlt⟩ := hspec
+      exact ⟨hf, hc, by simp, fun _ => ⟨hwf, hb, hlt⟩⟩
+    | some p =>
+      simp only [Prod.mk.injEq] at hv
+      obtain ⟨rfl, rfl⟩ := hv
+      obtain ⟨hf, hc, ⟨hwf, hp, hdr, fits, room⟩, hneed⟩ := hspec
+      have hrs := realSize_facts data.length
+      have hpl := hwf.pfront_le
+      -- the payload is copied into free cells, next to the header
+      have hfree : ∀ a, ¬ (s1.back % s1.cap ≤ a ∧ a < s1.back % s1.cap + realSize data.length) →
+          writeBytes s1.mem p data a = s1.mem a :=
+        fun a ha => writeBytes_other _ _ _ _ (by rw [hp]; omega)
+      have hwf2 := hwf.frame (writeBytes s1.mem p data)
+        (hwf.free_block s1.back (realSize data.length) (Nat.le_refl _) (by omega) fits
+          (writeBytes s1.mem p data) hfree)
+      have hdr2 : read64 (writeBytes s1.mem p data) (s1.back % s1.cap) = BitVec.ofNat 64 data.length := by
+        rw [read64_congr s1.mem _ _ (fun i hi => writeBytes_other _ _ _ _ (by rw [hp]; omega)), hdr]
+      have hbytes : readBytes (writeBytes s1.mem p data) (s1.back % s1.cap + 8) data.length = data := by
+        rw [← hp]; exact readBytes_writeBytes _ _ _
+      have hwf3 := hwf2.publish_record data hdr2 hbytes fits room
+      rw [vpush_eq]
+      dsimp only
+      rw [hdr2, real_of data.length hn]
+      exact ⟨hf, hc, fun _ => ⟨hwf3, hneed⟩, fun hh => absurd hh (by decide)⟩
+
+/-! ### Consumer -/
+
+theorem ofNat_inj63 {a b : Nat} (ha : a < 2 ^ 63) (hb : b < 2 ^ 63)
+    (h : BitVec.ofNat 64 a = BitVec.ofNat 64 b) : a = b := by
+  have := congrArg BitVec.toNat h
+  rwa [size_toNat a ha, size_toNat b hb] at this
+
+/-- A non-empty stretch whose first header is a plain size starts with that record. -/
+theorem Layout.head_record {cap : Nat} {mem : Nat → Byte} {f m : Nat} {r1 : List (List Byte)}
+    (l1 : Layout cap mem f m r1) (hne : f ≠ m)
+    (hnm : f % cap = 0 ∨ is_tail (read64 mem (f % cap)) = false) :
+    ∃ data r1', r1 = data :: r1' ∧ read64 mem (f % cap) = BitVec.ofNat 64 data.length ∧
+      readBytes mem (f % cap + 8) data.length = data ∧ f % cap + realSize data.length ≤ cap ∧
+      Layout cap mem (f + realSize data.length) m r1' := by
+  cases l1 with
+  | nil => exact absurd rfl hne
+  | record _ _ data rest a1 a2 a3 a4 hl => exact ⟨data, rest, rfl, a3, a4, a2, hl⟩
+  | marker _ _ _ a1 a2 a3 hl =>
+    rcases hnm with h0 | hnt
+    · exact absurd h0 a2
+    · rw [a3, is_tail_make_tail] at hnt
+      exact absurd hnt (by decide)
+
+/-- A non-empty stretch whose first header carries the tail mark starts with an unused tail. -/
+theorem Layout.head_marker {cap : Nat} {mem : Nat → Byte} {f m : Nat} {r1 : List (List Byte)}
+    (hcap : cap < 2 ^ 63) (l1 : Layout cap mem f m r1) (hne : f ≠ m)
+    (ht : is_tail (read64 mem (f % cap)) = true) :
+    f % cap ≠ 0 ∧ read64 mem (f % cap) = make_tail (BitVec.ofNat 64 (cap - f % cap - 8)) ∧
+      Layout cap mem (f + (cap - f % cap)) m r1 := by
+  cases l1 with
+  | nil => exact absurd rfl hne
+  | record _ _ data rest a1 a2 a3 a4 hl =>
+    have := realSize_facts data.length
+    rw [a3, is_tail_of_lt _ (by rw [size_toNat _ (by omega)]; omega)] at ht
+    exact absurd ht (by decide)
+  | marker _ _ _ a1 a2 a3 hl => exact ⟨a2, a3, hl⟩
+
+/-- An empty stretch holds no record. -/
+theorem Layout.nil_of_eq {cap : Nat} {mem : Nat → Byte} {f : Nat} {r : List (List Byte)}
+    (hpos : 0 < cap) (l : Layout cap mem f f r) : r = [] := by
+  cases l with
+  | nil => rfl
+  | record _ _ data rest a1 a2 a3 a4 hl =>
+    have := hl.le; have := realSize_facts data.length; omega
+  | marker _ _ _ a1 a2 a3 hl =>
+    have := hl.le; have := Nat.mod_lt f hpos; omega
+
+theorem refreshC_spec (s : VSt) (recs : List (List Byte)) (h : WF s recs) :
+    WF (refreshC s s.front) recs ∧ (refreshC s s.front).cap = s.cap ∧
+    (refreshC s s.front).front = s.front ∧ (refreshC s s.front).back = s.back ∧
+    (refreshC s s.front).mem = s.mem ∧
+    ((refreshC s s.front).cback - s.front < 8 → s.front = s.back) ∧
+    (¬ (refreshC s s.front).cback - s.front < 8 → s.front + 8 ≤ (refreshC s s.front).cback) := by
+  have hb := h.bounds
+  unfold refreshC
+  split
+  · rename_i hlt
+    have hl := h.layout
+    refine ⟨?_, rfl, rfl, rfl, rfl, ?_, ?_⟩
+    · obtain ⟨a1, a2, a3, a4, a5, a6, -⟩ := h
+      exact ⟨a1, a2, a3, a4, a5, a6, recs, [], by simp, hl, Layout.nil _⟩
+    · intro h8
+      dsimp only at h8
+      apply Classical.byContradiction
+      intro hne
+      have := hl.lt_of_ne h.cap8 h.cap_pos hne
+      omega
+    · intro h8; dsimp only at h8 ⊢; omega
+  · rename_i hlt
+    exact ⟨h, rfl, rfl, rfl, rfl, fun h8 => absurd h8 hlt, fun _ => by omega⟩
+
+theorem refreshC_id (s : VSt) (f : Nat) (h : ¬ s.cback - f < 8) : refreshC s f = s := by
+  unfold refreshC; rw [if_neg h]
+
+/-- Every record in a layout fits into the buffer. -/
+theorem Layout.mem_len {cap : Nat} {mem : Nat → Byte} {f b : Nat} {recs : List (List Byte)}
+    (l : Layout cap mem f b recs) : ∀ d ∈ recs, realSize d.length ≤ cap := by
+  induction l with
+  | nil => intro d hd; simp at hd
+  | record p b data rest a1 a2 a3 a4 hl ih =>
+    intro d hd
+    rcases List.mem_cons.mp hd with rfl | hd
+    · omega
+    · exact ih d hd
+  | marker p b recs a1 a2 a3 hl ih => exact ih
+
+theorem WF.empty_of_eq {s : VSt} {recs : List (List Byte)} (h : WF s recs) (he : s.front = s.back) :
+    recs = [] := by
+  have hl := h.layout
+  rw [he] at hl
+  exact Layout.nil_of_eq h.cap_pos hl
+
+/-- With at least a header's worth of published data in the consumer's view and no tail mark at `front_`,
+    the first record starts at `front_`. -/
+theorem WF.head_at_record {t : VSt} {recs : List (List Byte)} (h : WF t recs) (h8 : t.front + 8 ≤ t.cback)
+    (hnm : t.front % t.cap = 0 ∨ is_tail (read64 t.mem (t.front % t.cap)) = false) :
+    ∃ data rest, recs = data :: rest ∧ read64 t.mem (t.front % t.cap) = BitVec.ofNat 64 data.length ∧
+      readBytes t.mem (t.front % t.cap + 8) data.length = data ∧
+      t.front % t.cap + realSize data.length ≤ t.cap := by
+  obtain ⟨r1, r2, e, l1, l2⟩ := h.split
+  obtain ⟨data, r1', e1, hdr, hb, fits, -⟩ := l1.head_record (by omega) hnm
+  exact ⟨data, r1' ++ r2, by rw [e, e1]; rfl, hdr, hb, fits⟩
+
+theorem vpop_eq (s : VSt) : vpop s =
+    if (refreshC s s.front).cback - s.front < 8 then (refreshC s s.front, false)
+    else ({ refreshC s s.front with front := s.front +
+      (calc_real_size (untail (read64 (refreshC s s.front).mem (s.front % s.cap)))).toNat }, true) := by
+  unfold vpop; rfl
+
+/-- `pop_front()` on a buffer whose first record starts at `front_` removes exactly that record. -/
+theorem vpop_record (s : VSt) (data : List Byte) (rest : List (List Byte)) (h : WF s (data :: rest))
+    (hdr : read64 s.mem (s.front % s.cap) = BitVec.ofNat 64 data.length) :
+    ∃ s', vpop s = (s', true) ∧ WF s' rest ∧ s'.back = s.back ∧ s'.cap = s.cap ∧ s'.mem = s.mem := by
+  have hlen : data.length < 2 ^ 63 := by
+    have := h.layout.mem_len data (by simp)
+    have := realSize_facts data.length
+    have := h.cap_lt
+    omega
+  have hne : s.front ≠ s.back := fun he => by simpa using h.empty_of_eq he
+  obtain ⟨hwf1, c1, c2, c3, c4, c5, c6⟩ := refreshC_spec s _ h
+  rw [vpop_eq, c4, hdr, untail_of_lt _ (by rw [size_toNat _ hlen]; exact hlen), real_of _ hlen]
+  generalize refreshC s s.front = s1 at *
+  have h8 : ¬ s1.cback - s.front < 8 := fun hh => hne (c5 hh)
+  rw [if_neg h8]
+  have hcb := c6 h8
+  refine ⟨_, rfl, ?_, c3, c1, c4⟩
+  have hnt : is_tail (read64 s1.mem (s1.front % s1.cap)) = false := by
+    rw [c4, c2, c1, hdr]; exact is_tail_of_lt _ (by rw [size_toNat _ hlen]; exact hlen)
+  obtain ⟨a1, a2, a3, a4, a5, a6, r1, r2, e, l1, l2⟩ := hwf1
+  obtain ⟨data', r1', e1, hdr', -, fits, l1'⟩ := l1.head_record (by omega) (.inr hnt)
+  have hd : data' = data ∧ rest = r1' ++ r2 := by
+    rw [e1] at e
+    simp only [List.cons_append, List.cons.injEq] at e
+    exact ⟨e.1.symm, e.2⟩
+  obtain ⟨rfl, rfl⟩ := hd
+  have hrs := realSize_facts data'.length
+  refine ⟨a1, a2, a3, ?_, ?_, a6, r1', r2, rfl, ?_, l2⟩
+  · dsimp only; omega
+  · dsimp only; omega
+  · dsimp only; rw [← c2]; exact l1'
+
+theorem real_of_tail {tail : Nat} (h8 : tail % 8 = 0) (hge : 8 ≤ tail) (hlt : tail < 2 ^ 63) :
+    (calc_real_size (untail (make_tail (BitVec.ofNat 64 (tail - 8))))).toNat = tail := by
+  have h1 : tail - 8 < 2 ^ 63 := by omega
+  rw [untail_make_tail _ (by rw [size_toNat _ h1]; exact h1), real_of _ h1]
+  unfold realSize; omega
+
+theorem vfront_eq (s : VSt) : vfront s =
+    if (refreshC s s.front).cback - s.front < 8 then (refreshC s s.front, none)
+    else if is_tail (read64 (refreshC s s.front).mem (s.front % s.cap)) = true then
+      if (refreshC (vpop (refreshC s s.front)).1 (vpop (refreshC s s.front)).1.front).cback
+          - (vpop (refreshC s s.front)).1.front < 8 then
+        (refreshC (vpop (refreshC s s.front)).1 (vpop (refreshC s s.front)).1.front, none)
+      else (refreshC (vpop (refreshC s s.front)).1 (vpop (refreshC s s.front)).1.front,
+        some ((vpop (refreshC s s.front)).1.front % s.cap + 8,
+          read64 (refreshC (vpop (refreshC s s.front)).1 (vpop (refreshC s s.front)).1.front).mem
+            ((vpop (refreshC s s.front)).1.front % s.cap)))
+    else (refreshC s s.front, some (s.front % s.cap + 8, read64 (refreshC s s.front).mem (s.front % s.cap))) := by
+  unfold vfront; rfl
+
+/-- What `front()` promises about its result `r` in the state `s'` it leaves behind. -/
+def FrontOk (s' : VSt) (recs : List (List Byte)) (r : Option (Nat × BitVec 64)) : Prop :=
+  match recs with
+  | [] => r = none
+  | data :: _ => ∃ p, r = some (p, BitVec.ofNat 64 data.length) ∧
+      readBytes s'.mem p data.length = data ∧ p + data.length ≤ s'.cap ∧
+      read64 s'.mem (s'.front % s'.cap) = BitVec.ofNat 64 data.length
+
+theorem front_none_ok (t : VSt) (recs : List (List Byte)) (h : WF t recs)
+    (h8 : t.cback - t.front < 8) (hcb : t.cback = t.back) : FrontOk t recs none := by
+  have hb := h.bounds
+  have : t.front = t.back := by
+    apply Classical.byContradiction
+    intro hne
+    have := h.layout.lt_of_ne h.cap8 h.cap_pos hne
+    omega
+  rw [h.empty_of_eq this]; rfl
+
+/-- The common end of both paths of `front()`: no tail mark at `front_`. -/
+theorem front_some_ok (t : VSt) (recs : List (List Byte)) (h : WF t recs)
+    (hnm : t.front % t.cap = 0 ∨ is_tail (read64 t.mem (t.front % t.cap)) = false)
+    (h8 : ¬ t.cback - t.front < 8) :
+    FrontOk t recs (some (t.front % t.cap + 8, read64 t.mem (t.front % t.cap))) := by
+  have hb := h.bounds
+  obtain ⟨data, rest, rfl, hdr, hbytes, fits⟩ := h.head_at_record (by omega) hnm
+  have := realSize_facts data.length
+  exact ⟨_, by rw [hdr], hbytes, by omega, hdr⟩
+
+theorem refreshC_cback (s : VSt) (f : Nat) (h : (refreshC s f).cback - f < 8) :
+    (refreshC s f).cback = (refreshC s f).back := by
+  unfold refreshC at h ⊢
+  split
+  · rfl
+  · rename_i hn; rw [if_neg hn] at h; exact absurd h hn
+
+/-- `front()`: on an empty buffer nullptr (possibly after skipping an unused tail); otherwise the
+    payload address and exact size of the oldest record, whose bytes are intact and contiguous. -/
+theorem vfront_spec (s : VSt) (recs : List (List Byte)) (h : WF s recs) :
+    ∃ s' r, vfront s = (s', r) ∧ WF s' recs ∧ s'.back = s.back ∧ s'.cap = s.cap ∧ s'.mem = s.mem ∧
+      FrontOk s' recs r := by
+  obtain ⟨hwf1, c1, c2, c3, c4, c5, c6⟩ := refreshC_spec s _ h
+  rw [vfront_eq]
+  have hcb1 := refreshC_cback s s.front
+  generalize refreshC s s.front = s1 at *
+  by_cases h8 : s1.cback - s.front < 8
+  · rw [if_pos h8]
+    exact ⟨_, _, rfl, hwf1, c3, c1, c4, front_none_ok s1 recs hwf1 (by rw [c2]; exact h8) (hcb1 h8)⟩
+  · rw [if_neg h8]
+    have hcb := c6 h8
+    by_cases ht : is_tail (read64 s1.mem (s.front % s.cap)) = true
+    · -- unused tail at front_: skip it
+      rw [if_pos ht]
+      have hc8 := hwf1.cap8
+      have hcp := hwf1.cap_pos
+      have hclt := hwf1.cap_lt
+      have hf8 := hwf1.front8
+      have hpl := hwf1.pfront_le
+      have hofflt := Nat.mod_lt s1.front hcp
+      have hoff8 := mod_mod8 (p := s1.front) hc8
+      obtain ⟨r1, r2, e, l1, l2⟩ := hwf1.split
+      obtain ⟨a2, a3, l1'⟩ := l1.head_marker hclt (by omega) (by rw [c2, c1]; exact ht)
+      have hpop : vpop s1 = ({ s1 with front := s1.front + (s1.cap - s1.front % s1.cap) }, true) := by
+        rw [vpop_eq, refreshC_id s1 s1.front (by rw [c2]; exact h8), if_neg (by rw [c2]; exact h8), a3,
+          real_of_tail (by omega) (by omega) (by omega)]
+      have hwf2 : WF { s1 with front := s1.front + (s1.cap - s1.front % s1.cap) } recs := by
+        have := l1'.le
+        refine ⟨hc8, hcp, hclt, ?_, ?_, hwf1.back_le, r1, r2, e, l1', l2⟩
+        · dsimp only; omega
+        · dsimp only; omega
+      have h0 : (s1.front + (s1.cap - s1.front % s1.cap)) % s1.cap = 0 := mod_add_tail hcp
+      rw [hpop]
+      dsimp only
+      obtain ⟨hwf3, d1, d2, d3, d4, d5, d6⟩ := refreshC_spec _ _ hwf2
+      have hcb3 := refreshC_cback { s1 with front := s1.front + (s1.cap - s1.front % s1.cap) }
+        (s1.front + (s1.cap - s1.front % s1.cap))
+      dsimp only at d1 d2 d3 d4 d5 d6 hwf3 hcb3
+      generalize refreshC { s1 with front := s1.front + (s1.cap - s1.front % s1.cap) }
+        (s1.front + (s1.cap - s1.front % s1.cap)) = s3 at *
+      by_cases h8' : s3.cback - (s1.front + (s1.cap - s1.front % s1.cap)) < 8
+      · rw [if_pos h8']
+        exact ⟨_, _, rfl, hwf3, by omega, by omega, by rw [d4, c4],
+          front_none_ok s3 recs hwf3 (by rw [d2]; exact h8') (hcb3 h8')⟩
+      · rw [if_neg h8']
+        refine ⟨_, _, rfl, hwf3, by omega, by omega, by rw [d4, c4], ?_⟩
+        have := front_some_ok s3 recs hwf3 (.inl (by rw [d2, d1]; exact h0)) (by rw [d2]; exact h8')
+        rw [d2, d1, c1] at this
+        rw [c1]
+        exact this
+    · rw [if_neg ht]
+      refine ⟨_, _, rfl, hwf1, c3, c1, c4, ?_⟩
+      have := front_some_ok s1 recs hwf1 (.inr (by rw [c2, c1]; simpa using ht)) (by rw [c2]; exact h8)
+      rw [c2, c1] at this
+      exact this
+
+/-! ### Whole operations and runs -/
+
+/-- The consumer's work-loop body: `front()`, read the record through the returned pointer and size,
+    `pop_front()`. -/
+def vconsume (s : VSt) : VSt × Option (List Byte) :=
+  match vfront s with
+  | (s1, none) => (s1, none)
+  | (s1, some (p, sz)) => ((vpop s1).1, some (readBytes s1.mem p sz.toNat))
+
+theorem vconsume_spec (s : VSt) (recs : List (List Byte)) (h : WF s recs) :
+    ∃ s' r, vconsume s = (s', r) ∧ s'.cap = s.cap ∧
+      match recs with
+      | [] => r = none ∧ WF s' []
+      | data :: rest => r = some data ∧ WF s' rest := by
+  obtain ⟨s1, r1, hvf, hwf1, -, hc1, -, hok⟩ := vfront_spec s recs h
+  unfold vconsume
+  rw [hvf]
+  cases recs with
+  | nil =>
+    simp only [FrontOk] at hok
+    subst hok
+    exact ⟨_, _, rfl, hc1, rfl, hwf1⟩
+  | cons data rest =>
+    obtain ⟨p, rfl, hbytes, -, hdr⟩ := hok
+    obtain ⟨s2, hpop, hwf2, -, hc2, -⟩ := vpop_record s1 data rest hwf1 hdr
+    have hlen : data.length < 2 ^ 63 := by
+      have := hwf1.layout.mem_len data (by simp)
+      have := realSize_facts data.length
+      have := hwf1.cap_lt
+      omega
+    refine ⟨_, _, rfl, ?_, ?_, ?_⟩
+    · rw [hpop]; exact hc2.trans hc1
+    · rw [size_toNat _ hlen, hbytes]
+    · rw [hpop]; exact hwf2
+
+/-- A client program: pushes of byte records and consumptions, in any order. -/
+inductive VOp
+  | push (data : List Byte)
+  | consume
+
+/-- Run a program; returns the final state, the records whose push succeeded and the records
+    consumed, both in program order. -/
+def vrun : VSt → List VOp → VSt × List (List Byte) × List (List Byte)
+  | s, [] => (s, [], [])
+  | s, .push d :: ops =>
+    let r := vrun (vpushData s d).1 ops
+    (r.1, if (vpushData s d).2 then d :: r.2.1 else r.2.1, r.2.2)
+  | s, .consume :: ops =>
+    let r := vrun (vconsume s).1 ops
+    (r.1, r.2.1, match (vconsume s).2 with | some d => d :: r.2.2 | none => r.2.2)
+
+/-- Every run is an exact FIFO of byte records: what was in the buffer followed by what was pushed
+    successfully equals what was consumed followed by what is still in the buffer. -/
+theorem vrun_fifo (ops : List VOp) (s : VSt) (q : List (List Byte)) (h : WF s q)
+    (hlen : ∀ d, VOp.push d ∈ ops → d.length < 2 ^ 63) :
+    ∃ q', WF (vrun s ops).1 q' ∧ q ++ (vrun s ops).2.1 = (vrun s ops).2.2 ++ q' := by
+  induction ops generalizing s q with
+  | nil => exact ⟨q, h, by simp [vrun]⟩
+  | cons op ops ih =>
+    cases op with
+    | push d =>
+      have hd := hlen d (by simp)
+      have hrest : ∀ d', VOp.push d' ∈ ops → d'.length < 2 ^ 63 := fun d' hm => hlen d' (by simp [hm])
+      obtain ⟨-, -, hok, hfail⟩ := vpushData_spec s q d h hd (vpushData s d).1 (vpushData s d).2 rfl
+      simp only [vrun]
+      cases hres : (vpushData s d).2 with
+      | true =>
+        obtain ⟨q', hwf', he⟩ := ih _ _ (hok hres).1 hrest
+        exact ⟨q', hwf', by simpa using he⟩
+      | false =>
+        obtain ⟨q', hwf', he⟩ := ih _ _ (hfail hres).1 hrest
+        exact ⟨q', hwf', by simpa using he⟩
+    | consume =>
+      have hrest : ∀ d', VOp.push d' ∈ ops → d'.length < 2 ^ 63 := fun d' hm => hlen d' (by simp [hm])
+      obtain ⟨s1, r, hc, -, hm⟩ := vconsume_spec s q h
+      simp only [vrun, hc]
+      cases q with
+      | nil =>
+        obtain ⟨rfl, hwf1⟩ := hm
+        obtain ⟨q', hwf', he⟩ := ih _ _ hwf1 hrest
+        exact ⟨q', hwf', by simpa using he⟩
+      | cons d rest =>
+        obtain ⟨rfl, hwf1⟩ := hm
+        obtain ⟨q', hwf', he⟩ := ih _ _ hwf1 hrest
+        exact ⟨q', hwf', by simp [he]⟩
+
 end CdsVerif.Algo.Ring.Void
